@@ -165,8 +165,8 @@ harness!(c05_q_val_div, {
 // On the pure lattice k/4 every intermediate of these rules is exact, so the
 // f32 result must equal the *true* derivative (computed in f64) rounded once.
 harness!(c05_q_d_mul, {
-    let a = latx_grad::<31>();
-    let b = latx_grad::<31>();
+    let a = latx_grad::<15>();
+    let b = latx_grad::<15>();
     let r = a * b;
     let i: usize = kani::any();
     kani::assume(i < 3);
@@ -185,8 +185,8 @@ harness!(c05_q_d_mul_imm, {
     kani::cover!(want != 0.0);
 });
 harness!(c05_q_d_div, {
-    let a = latx_grad::<15>();
-    let b = latx_grad::<15>();
+    let a = latx_grad::<7>();
+    let b = latx_grad::<7>();
     kani::assume(b.v != 0.0);
     let r = a / b;
     let i: usize = kani::any();
@@ -245,8 +245,8 @@ harness!(c05_q_d_chain_ln, {
 // divisor is an unconstrained stub value): the derivative lanes of sqrt, asin,
 // acos, atan, tan.  Their value lanes are decided above.
 harness!(c05_q_d_atan2, {
-    let y = latx_grad::<7>();
-    let x = latx_grad::<7>();
+    let y = latx_grad::<5>();
+    let x = latx_grad::<5>();
     kani::assume(x.v != 0.0 || y.v != 0.0);
     let r = y.atan2(x);
     let i: usize = kani::any();
@@ -278,4 +278,28 @@ harness!(c05_q_val_recip_lat, {
     let a = lat_grad::<31, 0>();
     assert!(same_val(a.recip().v, U::Recip.eval(a.v)));
     kani::cover!(!a.recip().v.is_nan() && a.recip().v != 0.0);
+});
+
+// thorough-tier versions on the larger lattice
+harness!(c05_t_d_div_k15, {
+    let a = latx_grad::<15>();
+    let b = latx_grad::<15>();
+    kani::assume(b.v != 0.0);
+    let r = a / b;
+    let i: usize = kani::any();
+    kani::assume(i < 3);
+    let num = (b.v as f64) * (lane(a, i) as f64) - (a.v as f64) * (lane(b, i) as f64);
+    let den = (b.v as f64) * (b.v as f64);
+    assert!(lane(r, i) == (num / den) as f32, "quotient rule");
+    kani::cover!(num != 0.0);
+});
+harness!(c05_t_d_mul_k31, {
+    let a = latx_grad::<31>();
+    let b = latx_grad::<31>();
+    let r = a * b;
+    let i: usize = kani::any();
+    kani::assume(i < 3);
+    let want = (a.v as f64) * (lane(b, i) as f64) + (b.v as f64) * (lane(a, i) as f64);
+    assert!(lane(r, i) as f64 == want, "product rule");
+    kani::cover!(want != 0.0);
 });
